@@ -41,10 +41,29 @@ const GO_NOISE_MID: &[&str] = &["infinite", "ponder", "depth 3", "nodes 1000", "
 /// a trailing keyword without a value (safe only as the very last token)
 const GO_NOISE_TAIL: &[&str] = &["infinite", "depth", "binc", "winc", "wtime", "btime", "movestogo", "ponder"];
 
+/// random text of 1..=160 characters mixing 1-, 2-, 3- and 4-byte UTF-8 characters, so that
+/// character boundaries fall on every byte offset (byte-indexed slicing, fixed-size buffers)
+fn unicode_garbage(rng: &mut Rng) -> String {
+    const POOL: &[&str] = &["x", "y", "Z", "7", " ", "\u{00e9}", "\u{00fc}", "\u{4e2d}", "\u{265e}", "\u{5c06}", "\u{1f600}", "\u{0661}", "-", "="];
+    let n = 1 + rng.below(160) as usize;
+    let mut s = String::from("zz");
+    // shift the alignment of the multi-byte characters
+    for _ in 0..rng.below(4) {
+        s.push('q');
+    }
+    let heavy = rng.chance(1, 2);
+    for _ in 0..n {
+        let c = if heavy { *rng.pick(&POOL[5..11]) } else { *rng.pick(POOL) };
+        s.push_str(c);
+    }
+    s
+}
+
 fn noise_line(rng: &mut Rng) -> String {
     match rng.below(12) {
         0 => "x".repeat(4096),
         1 => format!("{} {}", rng.pick(NOISE), "y".repeat(300)),
+        2 | 3 | 4 => unicode_garbage(rng),
         _ => rng.pick(NOISE).to_string(),
     }
 }
